@@ -15,6 +15,7 @@ import Blue.Proofs.ConstsTieC08
 import Blue.Proofs.LogRetire
 import Blue.Proofs.SstRetire
 import Blue.Proofs.VerifierProgress
+import Blue.Proofs.VerifierHonest
 /-! # Property C08 — no needed file is ever removed; clean-up removes only unreferenced files
 
 Property theorems only.  `Blue.FileRefs` is the transition system of
@@ -75,7 +76,11 @@ under FRESH names (`validCompact`), as in `crash_keeps_named_files`.
 
 Progress of the verifier is block `VerifierProgress`: `Processable` (every entry passes — check,
 readable files, parsable `L`, plan names in `trash/` — each in the directory the entries before it
-leave) is a HYPOTHESIS, not derived from an honest store history; under it a pass returns `Ok`,
+leave) is a HYPOTHESIS there; block `VerifierHonest` derives it, with the real checks
+(`contentChecker`, C04 `verifier_accepts_honest`), for every directory that satisfies `HonestDir`
+(the fragments are those of a store history of C04's model numbered upwards, `verify/` clean, and —
+ASSUMED, as fields — removed files are in `trash/`, named files are live or removed later);
+under it a pass returns `Ok`,
 makes at least 3 durable actions per entry, unlinks every processed fragment and exactly the names
 of the plans, and the next pass is empty (`verifier_pass_progress`, `verifier_passes_converge`).
 A pending intent left by a crash is finished by the first actions of the next pass that HAS an entry,
@@ -849,6 +854,93 @@ example : (final chainChecker dCutRolled).trash = [] ∧ (final chainChecker dCu
 end VerifierProgress
 -- END VerifierProgress
 
+-- BEGIN VerifierHonest
+/-! ## `Processable` for the directory of an honest store history (C08 ∘ C04) -/
+section VerifierHonest
+open Blue.Verifier Blue.VerifyOne Blue.Books
+open Blue.Mani (Edit)
+variable {G : Type} [DecidableEq G] (g : Grp G)
+
+/-- what `HonestDir env nm I D k files segs d` says (the bridge between C04's store history and
+    C08's directory; `trashF`, `trashL`, `named` are ASSUMED of the store side — the rename into
+    `trash/` is C08 `sst_trashed_after_append_then_sync`, in another model; no reader snapshot
+    delays it; the store is not running): the fragments of `d` are C04's `fragmentsOf` numbered
+    upwards from `k`; the hypotheses of `verifier_accepts_honest_rollovers` hold; `O` is the sum over
+    the files at the first roll-over; nothing is pending; whatever an edit of a fragment or of
+    `MANIFEST` removes is in `trash/`; whatever an edit names is in `sst/` or removed by the same
+    fragment, a later one or `MANIFEST` -/
+theorem honestDir_means (env : Env G) (nm : G → Name) (I D : G) (k : Nat) (files : List File)
+    (segs : List (List StoreOp)) (d : Dir G) (h : HonestDir env nm I D k files segs d) :
+    d.frags = number k (fragmentsOf env.ops env.h env.policy nm I D files segs)
+    ∧ files.Nodup ∧ ValidSegs env files segs
+    ∧ d.vO = treeSum env.ops env.h files
+    ∧ d.vstrs = [] ∧ (∀ m, d.vM = some m → m < k)
+    ∧ (∀ f, f ∈ d.frags → ∀ e, e ∈ f.2 → ∀ r, r ∈ removedBy e → trashSst r ∈ d.trash)
+    ∧ (∀ e, e ∈ d.live → ∀ r, r ∈ removedBy e → trashSst r ∈ d.trash)
+    ∧ (∀ f, f ∈ d.frags → ∀ e, e ∈ f.2.drop 1 → ∀ r, r ∈ e.add ++ e.rm →
+        r ∈ d.sst ∨ r ∈ f.2.flatMap removedBy ∨ r ∈ laterRm d f.1) :=
+  ⟨h.frags, h.nodup, h.valid, h.acc, h.vstrs, h.vM, h.trashF, h.trashL, h.named⟩
+
+/-- **one entry**: the oldest fragment of an honest directory is processable — not below `M`, files
+    readable, ACCEPTED BY THE REAL CHECKS (C04), no `L` field that does not parse (the store model
+    writes none), plan names in `trash/`: all four are derived — and what the entry leaves is the
+    honest directory of the rest of the history -/
+theorem honest_step (env : Env G) (nm : G → Name) (hh : Honest g env nm) (I D : G) (k : Nat) (files : List File)
+    (seg : List StoreOp) (segs : List (List StoreOp)) (d : Dir G)
+    (h : HonestDir env nm I D k files (seg :: segs) d) :
+    ∃ d', absStep (contentChecker env) d k
+        (rollup env.ops env.h nm I D files :: editsOf env.ops env.h env.policy nm files seg) = some d'
+      ∧ HonestDir env nm I D (k + 1) (finalFiles env.policy files seg) segs d' :=
+  Blue.VerifyOne.honest_step g env nm hh I D k files seg segs d h
+
+/-- **`Processable` is no hypothesis for an honest history** — any number of fragments, any
+    transactions (ingests, compactions cut anywhere, garbage collections, moves, reproduced inputs) -/
+theorem honest_directory_processable (env : Env G) (nm : G → Name) (hh : Honest g env nm) (I D : G)
+    (segs : List (List StoreOp)) (k : Nat) (files : List File) (d : Dir G)
+    (h : HonestDir env nm I D k files segs d) : Processable (contentChecker env) d (entries d) :=
+  Blue.VerifyOne.honest_directory_processable g env nm hh I D segs k files d h
+
+/-- **progress on honest histories**: `verifier_pass_progress` and `verifier_passes_converge` for the
+    directory of every honest history with at least one fragment, run with the real checks; the
+    store is not running during the pass.  No hypothesis about the checker or `Processable`. -/
+theorem honest_pass_progress (env : Env G) (nm : G → Name) (hh : Honest g env nm) (I D : G) (k : Nat)
+    (files : List File) (segs : List (List StoreOp)) (d : Dir G) (h : HonestDir env nm I D k files segs d)
+    (hne : segs ≠ []) :
+    ∃ hnil : d.frags ≠ [],
+      Processable (contentChecker env) d (entries d)
+      ∧ (entries d).length = segs.length - 1
+      ∧ ((pass (contentChecker env) d).2 = .ok
+        ∧ 3 * (entries d).length ≤ (pass (contentChecker env) d).1.length
+        ∧ (∀ f, f ∈ entries d → Act.unlinkFrag f.1 ∈ (pass (contentChecker env) d).1)
+        ∧ (final (contentChecker env) d).frags = [d.frags.getLast hnil]
+        ∧ Clean (final (contentChecker env) d)
+        ∧ (final (contentChecker env) d).vM = (match (entries d).getLast? with | some f => some f.1 | none => d.vM)
+        ∧ (∀ x, x ∈ (final (contentChecker env) d).trash ↔ x ∈ d.trash ∧ x ∉ plans (contentChecker env) d (entries d))
+        ∧ (final (contentChecker env) d).sst = d.sst ∧ (final (contentChecker env) d).live = d.live)
+      ∧ (entries (final (contentChecker env) d) = [] ∧ pass (contentChecker env) (final (contentChecker env) d) = ([], .ok)
+        ∧ final (contentChecker env) (final (contentChecker env) d) = final (contentChecker env) d)
+      ∧ ∀ j, finish (final (contentChecker env) (run d ((pass (contentChecker env) d).1.take j)))
+          = final (contentChecker env) d :=
+  Blue.VerifyOne.honest_pass_progress g env nm hh I D k files segs d h hne
+
+/-- non-vacuity: `hDir` — the directory of "ingest, ingest | compact both | ingest" (three fragments,
+    two entries; the compaction's inputs in `trash/`, its output and the last ingest in `sst/`) over the
+    integers — satisfies `HonestDir` (every field by `decide`), its environment is `Honest`; the real
+    pass over it returns `Ok` after 9 actions, empties `trash/`, leaves fragment 3 and `M = 2` -/
+example : Honest intGrp hEnv exName ∧ HonestDir hEnv exName 0 0 1 [] hSegs hDir ∧ hSegs ≠ [] :=
+  ⟨hEnv_honest, hDir_honest, by decide⟩
+example : (entries hDir).length = 2 ∧ finalFiles hEnv.policy [] hSegs.flatten = [hM, hF3]
+    ∧ (pass (contentChecker hEnv) hDir).2 = .ok ∧ (pass (contentChecker hEnv) hDir).1.length = 9
+    ∧ (final (contentChecker hEnv) hDir).trash = [] ∧ (final (contentChecker hEnv) hDir).frags.map (·.1) = [3]
+    ∧ (final (contentChecker hEnv) hDir).vM = some 2 := by decide
+example := honestDir_means hEnv exName 0 0 1 [] hSegs hDir hDir_honest
+example := honest_step intGrp hEnv exName hEnv_honest 0 0 1 [] _ _ hDir hDir_honest
+example := honest_directory_processable intGrp hEnv exName hEnv_honest 0 0 hSegs 1 [] hDir hDir_honest
+example := honest_pass_progress intGrp hEnv exName hEnv_honest 0 0 1 [] hSegs hDir hDir_honest (by decide)
+
+end VerifierHonest
+-- END VerifierHonest
+
 end Blue.Props.C08
 
 #print axioms Blue.Props.C08.refcount_invariant_preserved
@@ -903,3 +995,7 @@ end Blue.Props.C08
 #print axioms Blue.Props.C08.verifier_passes_converge
 #print axioms Blue.Props.C08.verifier_crash_then_rollover_converges
 #print axioms Blue.Props.C08.verifier_leftover_stays_until_rollover
+#print axioms Blue.Props.C08.honestDir_means
+#print axioms Blue.Props.C08.honest_step
+#print axioms Blue.Props.C08.honest_directory_processable
+#print axioms Blue.Props.C08.honest_pass_progress
